@@ -354,6 +354,16 @@ class LaplaceTransformer(UnilateralForwardTransformer):
                 return result * const
             expr = expand_functions(expr, t)
 
+        def unscale_delta(arg, n=0):
+            # DiracDelta(a * t + b, n) = DiracDelta(t + b / a, n) / abs(a)**(n + 1)
+            try:
+                scale, shift = scale_shift(arg, t)
+            except Exception:
+                return sym.DiracDelta(arg, n)
+            return sym.DiracDelta(t + shift / scale, n) / abs(scale)**(n + 1)
+
+        expr = expr.replace(sym.DiracDelta, unscale_delta)
+
         if expr.has(sym.Heaviside(t)):
             return self.integrate_0(expr.replace(sym.Heaviside(t), 1), t, s) * const
 
